@@ -20,6 +20,7 @@ namespace Cel.Names
 /-- values: what bindings hold and what references evaluate to.  `ncobj` is a `NameContainer`
 object that leaked out as a result, `annobj` a declared type used as a value. -/
 inductive Val where
+  | null                                   -- CEL `null` (Python `None`): a value like any other
   | int (n : Int)
   | map (kvs : List (String × Val))
   | list (xs : List Val)
@@ -29,6 +30,7 @@ inductive Val where
 
 mutual
 def Val.show : Val → String
+  | .null => "null"
   | .int n => toString n
   | .map kvs => "{" ++ Val.showPairs kvs ++ "}"
   | .list xs => "[" ++ Val.showList xs ++ "]"
